@@ -20,15 +20,15 @@ def typed_lookups(repo, run, rule, only=None, floor=7):
         if only is not None and fi.qualname not in only:
             continue
         user = fi.cls is not None and fi.cls.name == 'PrevNode'
-        for lk in pathbase.analyse(fi, user_path_self=user):
+        for lk in pathbase.analyse(repo, fi, user_path_self=user):
             n += 1
-            where = (lk.fi.file, lk.call.lineno, lk.fi.qualname)
+            where = (lk.fi.file, getattr(lk.call, 'lineno', lk.fi.line), lk.fi.qualname)
             if lk.ok:
                 run.ok(rule, where, lk.text(), 'receiver %s needs %s, path base %s' % (lk.role, lk.need, lk.base))
             elif lk.base.startswith('BAD('):
                 run.violation(rule, lk.fi, lk.text(), 'path arithmetic mixes bases: %s' % lk.base[4:-1], node=lk.call)
             elif lk.base == 'UNKNOWN':
-                raise AnalysisError('%s %s: path expression %s of lookup %s cannot be typed' % (rule, lk.fi.qualname, unparse(lk.call.args[0]), lk.text()))
+                raise AnalysisError('%s %s: path expression %s of lookup %s cannot be typed' % (rule, lk.fi.qualname, lk.ev.args[0].text[:60], lk.text()))
             else:
                 if lk.role == 'PEER':
                     msg = 'a path with base %s (absolute / prefixed with the location of the node being merged) is looked up inside `%s`, which is itself located at that path; the lookup needs a path relative to it' % (lk.base, lk.receiver)
@@ -42,25 +42,60 @@ def typed_lookups(repo, run, rule, only=None, floor=7):
 
 def removed_set_bases(repo, run, rule):
     """the `removed` set filled by filter_nodes(prefix=P) and the paths walked by _require_all_new(Q, exceptions=removed)
-    have the same base iff P == Q"""
-    fi = repo.func('ComposedNode.ayns.on_merge_impl')
-    filt = [c for c in calls_in(fi.node) if is_method_call(c, recv='self', member='filter_nodes', ayns=True) and get_kw(c, 'removed') is not None]
-    req = [c for c in calls_in(fi.node) if is_method_call(c, member='_require_all_new', ayns=True) and get_kw(c, 'exceptions') is not None]
-    if len(filt) != 1 or len(req) != 1:
+    have the same base iff P == Q (decided on the traces of on_merge_impl and filter_nodes)"""
+    from . import mergetrace as mt
+    from . import tr
+    fi, paths = mt.merge_paths(repo)
+    n = 0
+    reported = set()
+    for p in paths:
+        filt = [e for e in p.events if e.kind == 'call' and e.attr == 'filter_nodes' and e.kw.get('removed') is not None]
+        req = [e for e in p.events if e.kind == 'call' and e.attr == '_require_all_new' and e.kw.get('exceptions') is not None]
+        if not req:
+            continue
+        if len(filt) != 1 or len(req) != 1:
+            raise AnalysisError('removed-set idiom (filter_nodes(removed=...) / _require_all_new(exceptions=...)) not recognised')
+        n += 1
+        f, r = filt[0], req[0]
+        pfx = f.kw.get('prefix')
+        q = r.args[0] if r.args else None
+        same_set = f.kw['removed'] is r.kw['exceptions'] or (f.kw['removed'].text == r.kw['exceptions'].text and not f.kw['removed'].text.endswith('()'))
+        if not same_set and f.kw['removed'].text == r.kw['exceptions'].text:
+            raise AnalysisError('removed-set idiom: cannot tell whether filter_nodes and _require_all_new share one set')
+        if pfx is None or q is None or pfx.text != q.text or not same_set:
+            if id(r.node) not in reported:
+                reported.add(id(r.node))
+                run.violation(rule, tr.where(fi, r), r.callee[:120], 'paths recorded as removed (prefix %s) and paths checked for novelty (prefix %s) have different bases' % (pfx.text if pfx is not None else None, q.text if q is not None else None))
+        elif ('ok', id(r.node)) not in reported:
+            reported.add(('ok', id(r.node)))
+            run.ok(rule, tr.where(fi, r), 'removed set vs _require_all_new walk', 'both prefixed with %s' % pfx.text)
+    if not n:
         raise AnalysisError('removed-set idiom (filter_nodes(removed=...) / _require_all_new(exceptions=...)) not recognised')
-    p = get_kw(filt[0], 'prefix')
-    q = req[0].args[0] if req[0].args else None
-    same_set = norm(get_kw(filt[0], 'removed')) == norm(get_kw(req[0], 'exceptions'))
-    if p is None or q is None or norm(p) != norm(q) or not same_set:
-        run.violation(rule, fi, unparse(req[0])[:120], 'paths recorded as removed (prefix %s) and paths checked for novelty (prefix %s) have different bases' % (norm(p) if p is not None else None, norm(q) if q is not None else None), node=req[0])
-    else:
-        run.ok(rule, (fi.file, req[0].lineno, fi.qualname), 'removed set vs _require_all_new walk', 'both prefixed with %s' % norm(p))
     fn = repo.func('ComposedNode.ayns.filter_nodes')
-    adds = [c for c in calls_in(fn.node) if is_method_call(c, recv='removed', member='add', ayns=False)]
-    if not adds or norm(adds[0].args[0]) != 'prefix + [name]':
-        raise AnalysisError('filter_nodes: removed.add(prefix + [name]) not recognised')
-    rec = [c for c in calls_in(fn.node) if is_method_call(c, member='filter_nodes', ayns=True)]
-    if not rec or norm(get_kw(rec[0], 'prefix')) != 'child_path' or norm(get_kw(rec[0], 'removed') or ast.Constant(value=None)) != 'removed':
-        run.violation(rule, fn, unparse(rec[0]) if rec else 'recursion', 'filter_nodes does not thread prefix=child_path / removed through its recursion', node=rec[0] if rec else None)
+    params = fn.params()
+    if 'prefix' not in params or 'removed' not in params:
+        raise AnalysisError('filter_nodes: parameters prefix / removed not found')
+    fpaths = tr.paths_of(repo, fn, no_inline={'named_children', 'remove_child', 'set_child'}, follow_exceptions=False)
+    adds = recs = 0
+    bad = None
+    for p in fpaths:
+        for e in p.events:
+            if e.kind == 'call' and e.attr == 'add' and e.recv is not None and e.recv.text == 'removed':
+                adds += 1
+                x = e.args[0].ast if e.args else None
+                if not (isinstance(x, ast.BinOp) and isinstance(x.op, ast.Add) and pathbase.base(x, {'prefix': 'P'}) == 'P' and isinstance(x.right, (ast.List, ast.Tuple)) and len(x.right.elts) == 1):
+                    bad = (e, 'a removed path is recorded as %s, not as prefix + [name]' % (e.args[0].text[:60] if e.args else None))
+            if e.kind == 'call' and e.attr == 'filter_nodes' and e.recv is not None and e.recv.text != 'self.ayns':
+                recs += 1
+                pf = e.kw.get('prefix') or (e.args[1] if len(e.args) > 1 else None)
+                rm = e.kw.get('removed') or (e.args[2] if len(e.args) > 2 else None)
+                x = pf.ast if pf is not None else None
+                if not (isinstance(x, ast.BinOp) and isinstance(x.op, ast.Add) and pathbase.base(x, {'prefix': 'P'}) == 'P' and isinstance(x.right, (ast.List, ast.Tuple)) and len(x.right.elts) == 1) \
+                        or rm is None or rm.text != 'removed':
+                    bad = (e, 'filter_nodes does not thread prefix=prefix + [name] / removed through its recursion')
+    if not adds or not recs:
+        raise AnalysisError('filter_nodes: removed.add(prefix + [name]) / recursion not recognised')
+    if bad:
+        run.violation(rule, tr.where(fn, bad[0]), bad[0].callee[:100], bad[1])
     else:
-        run.ok(rule, (fn.file, rec[0].lineno, fn.qualname), unparse(rec[0])[:100], 'recursion extends the prefix and shares the removed set')
+        run.ok(rule, fn, 'filter_nodes: removed.add(prefix + [name]); recursion with prefix + [name] and the same set', 'recursion extends the prefix and shares the removed set')
